@@ -1,11 +1,29 @@
 //! Engine S seam. This crate's *lib name* is `tokio`: rsactor (compiled unmodified from /repo/src
 //! through the shadow manifest) and the harness both see it as `tokio`. It is the real tokio 1.49.0
-//! (glob re-export, macros included) with exactly one thing replaced: `spawn`, which wraps the
+//! (glob re-export, macros included) with `spawn` replaced, which wraps the
 //! future in a [`sim::Gate`] so that the simulator - and only the simulator - decides which task's
 //! next poll is allowed to reach the inner future. Nothing of tokio is stubbed.
 pub use real_tokio::*;
 
 pub mod sim;
+
+mod mpsc_shim;
+
+/// `tokio::sync` with the bounded mpsc channel replaced by [`mpsc_shim`] (see there)
+pub mod sync {
+    pub use real_tokio::sync::*;
+    pub mod mpsc {
+        pub use crate::mpsc_shim::*;
+    }
+}
+
+/// `tokio::time` with `timeout` marking the polls of its inner future (see [`mpsc_shim`])
+pub mod time {
+    pub use real_tokio::time::*;
+    pub fn timeout<F: std::future::IntoFuture>(duration: std::time::Duration, future: F) -> real_tokio::time::Timeout<crate::sim::InTimeout<F::IntoFuture>> {
+        real_tokio::time::timeout(duration, crate::sim::InTimeout::new(future.into_future()))
+    }
+}
 
 pub mod task {
     pub use crate::sim::spawn;
